@@ -5663,7 +5663,14 @@ public:
     template<typename T, typename Tag>
     SBEPP_CPP14_CONSTEXPR bool on_data(T d, Tag) noexcept
     {
-        return !validate_and_subtract(sbepp::size_bytes(d));
+        // length prefix and payload are validated one after another because
+        // their sum, `size_bytes(d)`, wraps around for huge 64-bit lengths
+        if(!validate_and_subtract(sizeof(typename T::size_type)))
+        {
+            return true;
+        }
+
+        return !validate_and_subtract(d.size());
     }
 
     // ignore them all because we validate `blockLength`
